@@ -92,6 +92,12 @@ type Obj struct {
 	ReadOnly bool
 	Name     string
 	AllocAt  string
+	HexSrc   *HexSrc // set on strings produced by hex.EncodeToString: the bytes they encode
+}
+
+type HexSrc struct {
+	Arr      *Term
+	Off, Len *Term
 }
 
 func (o *Obj) clone(epoch int) *Obj {
